@@ -106,6 +106,18 @@ func (s *Sim) opNewObserver(op *Op) {
 	s.observers = append(s.observers, inst)
 	s.tracef("%d NewObserver %d ev=%d ad=%d for=%v with=%v wo=%v excl=%v", s.OpIdx, oi, spec.Ev, spec.Ad, forAll, spec.With, spec.Without, spec.Excl)
 	if op.N == 0 {
+		if oi%4 == 1 && !s.rebuilding {
+			// the first world this observer object is registered in is another one
+			w2 := s.scratchWorld()
+			if p, val := s.call(func() {
+				o.Register(w2)
+				o.Unregister(w2)
+			}); p {
+				s.violate("C08", "obs.register", "other_world_first", true, "registering and unregistering a new observer in another world panicked: %v", val)
+				return
+			}
+			s.C.Faults["obs_served_other_world_before"]++
+		}
 		s.regObs(inst, true)
 	}
 }
@@ -144,6 +156,19 @@ func (s *Sim) opRegObs(op *Op, reg bool) {
 	if o.Registered == reg || o.Invalid {
 		s.skip(op)
 		return
+	}
+	if reg && abs(op.O)%3 == 0 {
+		// the observer object served another world before (Register and Unregister take the world
+		// as argument): a world that registered the component types in the opposite order
+		w2 := s.scratchWorld()
+		if p, val := s.call(func() {
+			o.O.Register(w2)
+			o.O.Unregister(w2)
+		}); p {
+			s.violate("C08", "obs.register", "other_world", true, "registering and unregistering the observer in another world panicked: %v", val)
+			return
+		}
+		s.C.Faults["obs_served_other_world_before"]++
 	}
 	s.regObs(o, reg)
 	s.tracef("%d RegObs %d %v", s.OpIdx, abs(op.O)%len(s.observers), reg)
@@ -185,4 +210,16 @@ func (s *Sim) opEmit(op *Op) {
 	}
 	s.checkEvents(t)
 	s.tracef("%d Emit ev=%d e=%d cs=%v", s.OpIdx, ev, key, cs)
+}
+
+// scratchWorld returns a second world of the process in which the universe types are
+// registered in the opposite order (other component IDs than in the simulated world).
+func (s *Sim) scratchWorld() *ecs.World {
+	if s.scratch == nil {
+		s.scratch = ecs.NewWorld(4)
+		for t := NumTypes - 1; t >= 0; t-- {
+			U[t].ID(s.scratch)
+		}
+	}
+	return s.scratch
 }
